@@ -61,8 +61,6 @@ def classes(*es):
             out.add("C17-integer-division")
         if "mod" in o:
             out.add("C17-mod-sign")
-        if left_nested_pow(e):
-            out.add("C17-left-nested-power")
         if "powe" in o:
             out.add("C17-negative-exponent")
     return out
@@ -211,6 +209,8 @@ def evalF(e, env, interp=INTERP[0]):
     if t == "max":
         return max(a, b)
     if t == "powe":
+        if b > 4096 and abs(a) > 1:
+            raise Undefined()          # astronomically large: skip the valuation
         if b >= 0:
             return a ** b
         if a == 0:
@@ -219,46 +219,59 @@ def evalF(e, env, interp=INTERP[0]):
     raise ValueError(t)
 
 
-def ratdef(e, env):
-    """True iff no divisor is zero when e is evaluated over the rationals (SymPy's reading)"""
+def evalQ_py(e, env, interp=INTERP[0]):
+    """value of e over the rationals, the way SymPy reads a faithfully translated tree: exact division, floored
+    Mod, rational powers with integer exponents, arrays like `liftEnv`.  Raises Undefined (zero divisor, ...)."""
     from fractions import Fraction
-
-    def ev(e):
-        t = e[0]
-        if t == "lit":
-            return Fraction(e[1])
-        if t == "var":
-            return Fraction(env[e[1]])
-        if t == "neg":
-            return -ev(e[1])
-        if t == "pow":
-            return ev(e[1]) ** e[2]
-        if t in ("arr1", "arr2", "powe"):
+    t = e[0]
+    if t == "lit":
+        return Fraction(e[1])
+    if t == "var":
+        return Fraction(env[e[1]])
+    if t == "neg":
+        return -evalQ_py(e[1], env, interp)
+    if t == "pow":
+        return evalQ_py(e[1], env, interp) ** e[2]
+    if t == "arr1":
+        z = evalQ_py(e[2], env, interp)
+        return Fraction(interp[0](e[1], int(z))) if z.denominator == 1 else Fraction(0)
+    if t == "arr2":
+        y, z = evalQ_py(e[2], env, interp), evalQ_py(e[3], env, interp)
+        return Fraction(interp[1](e[1], int(y), int(z))) if y.denominator == 1 and z.denominator == 1 else Fraction(0)
+    a, b = evalQ_py(e[1], env, interp), evalQ_py(e[2], env, interp)
+    if t == "add":
+        return a + b
+    if t == "sub":
+        return a - b
+    if t == "mul":
+        return a * b
+    if t == "div":
+        if b == 0:
             raise Undefined()
-        a, b = ev(e[1]), ev(e[2])
-        if t == "add":
-            return a + b
-        if t == "sub":
-            return a - b
-        if t == "mul":
-            return a * b
-        if t == "div":
-            if b == 0:
-                raise Undefined()
-            return a / b
-        if t == "mod":
-            if b == 0:
-                raise Undefined()
-            return a - b * ((a / b).__floor__())
-        if t == "min":
-            return min(a, b)
-        if t == "max":
-            return max(a, b)
-        raise Undefined()
+        return a / b
+    if t == "mod":
+        if b == 0:
+            raise Undefined()
+        return a - b * ((a / b).__floor__())
+    if t == "min":
+        return min(a, b)
+    if t == "max":
+        return max(a, b)
+    if t == "powe":
+        if b.denominator != 1 or (a == 0 and b <= 0) or abs(b) > 64:
+            raise Undefined()
+        return a ** int(b)
+    raise Undefined()
+
+
+def ratdef(e, env):
+    """True iff e has a value over the rationals (no zero divisor) and no array / symbolic exponent"""
+    if {"arr1", "arr2", "powe"} & ops(e):
+        return False
     try:
-        ev(e)
+        evalQ_py(e, env)
         return True
-    except (Undefined, ZeroDivisionError):
+    except (Undefined, ZeroDivisionError, OverflowError):
         return False
 
 
@@ -425,6 +438,48 @@ def gen_pair(rng, ext, max_nodes=12):
                 max(degree(e1, False), degree(e2, False), degree(e1, True), degree(e2, True)) <= 6:
             return e1, e2, kind
     return ("var", 0), ("var", 0), "same"
+
+
+def gen_nested_pow_pair(rng):
+    """pairs around a left-nested power (x**k)**m, literal and symbolic exponents: the right reading x**(k*m), the
+    wrong reading x**(k**m), shifted variants (never_equal) and embeddings in a larger polynomial"""
+    r = rng.random()
+    if r < 0.6:
+        x = rng.choice([("var", rng.randrange(3)), ("var", rng.randrange(3)),
+                        ("add", ("var", rng.randrange(3)), ("lit", rng.choice([1, 2]))),
+                        ("neg", ("var", rng.randrange(3))), ("mul", ("lit", 2), ("var", rng.randrange(3)))])
+        k, m = rng.choice([(2, 3), (3, 2), (2, 2), (2, 3), (3, 2), (1, 2), (2, 1), (3, 1)])
+        lhs = ("pow", ("pow", x, k), m)
+        right, wrong = ("pow", x, k * m), ("pow", x, k ** m)
+        if rng.random() < 0.25:
+            lhs = ("pow", lhs, 1)          # three levels
+    else:
+        base = rng.choice([("lit", 2), ("lit", 3), ("var", 0), ("var", 2)])
+        j, k = ("var", 1), rng.choice([("var", 2), ("var", 0), ("lit", 2), ("lit", 3)])
+        inner = ("powe", base, j)
+        lhs = ("pow", inner, k[1]) if k[0] == "lit" else ("powe", inner, k)
+        right, wrong = ("powe", base, ("mul", j, k)), ("powe", base, ("powe", j, k) if k[0] != "lit" else ("pow", j, k[1]))
+    rhs = right if rng.random() < 0.5 else wrong
+    r = rng.random()
+    c = ("lit", rng.choice([1, 2, 3]))
+    if r < 0.35:
+        lhs = ("add", lhs, c)              # never_equal candidates
+    elif r < 0.5:
+        y = ("var", rng.randrange(3))
+        lhs, rhs = ("mul", lhs, y), ("mul", y, rhs)
+    elif r < 0.6:
+        rhs = ("sub", rhs, c)
+    if rng.random() < 0.5:
+        lhs, rhs = rhs, lhs
+    return lhs, rhs, "nestedpow"
+
+
+def gen_nested_pow_expr(rng):
+    """expressions to expand that contain a left-nested power"""
+    e1, e2, _ = gen_nested_pow_pair(rng)
+    e = e1 if left_nested_pow(e1) else e2
+    y = ("add", ("var", rng.randrange(3)), ("lit", 1))
+    return rng.choice([e, ("mul", e, y), ("mul", y, e), ("sub", e, y)])
 
 
 def gen_minmax_pair(rng):
